@@ -1067,7 +1067,137 @@ def ev_reuse(case):
     return {"fails": fails[:25], "n": nev, "tags": tags, "slack": slack, "sample": last}
 
 
-EVALUATORS = {"reuse": ev_reuse, "guesses_big": ev_guesses_big,"class": ev_class, "quad": ev_quad, "layout": ev_layout, "joint": ev_joint, "posterior": ev_posterior, "guesses": ev_guesses}
+# =============================================================================== many variables (added)
+# "for all hyper-parameter values ... all partitions of parameter indices": priors over n = 30 / 60 / 200 variables whose scales are all
+# narrow (1e-6), of order one, or wide (1e6) - e.g. profile-node parameters in SI units.  The log of a product density of n independent
+# variables is the SUM of the n one-variable log-densities, each of which is a moderate number (|log 1e-6| = 13.8) however small / large
+# the n-dimensional volume is, so it must be finite inside the support.
+MANY_LAYOUTS = ("single", "merge2", "merge3-interleaved", "singletons", "mixed")
+
+
+def many_law(t, i, s):
+    """law of variable i of type t at absolute scale s (distinct per variable so that misrouting is visible)"""
+    if t == "G":
+        return (s * (0.3 + 0.1 * ((i * 7) % 11 - 5)), s * (1.0 + 0.5 * ((i * 3) % 7) / 7.0))
+    if t == "E":
+        return (s * (1.0 + 0.5 * ((i * 3) % 7) / 7.0),)
+    lo = s * 0.37 * ((i * 5) % 13 - 6)
+    return (lo, lo + s * (1.0 + 0.25 * ((i * 3) % 5)))
+
+
+def many_inside(t, h, i, which):
+    if t == "G":
+        return h[0] + (0.0, 0.5, -0.5, 3.0, -3.0, 30.0, -30.0)[(i + which) % 7] * h[1]
+    if t == "E":
+        return h[0] * (0.3, 1.0, 2.5, 30.0)[(i + which) % 4]
+    return h[0] + (h[1] - h[0]) * (0.25, 0.5, 0.8125)[(i + which) % 3]
+
+
+def many_components(layout, t, n):
+    """[(type, [indices])] covering 0..n-1"""
+    if layout == "single":
+        return [(t, list(range(n)))]
+    if layout == "merge2":  # second half first, indices of the second block descending
+        return [(t, list(range(n // 2, n))[::-1]), (t, list(range(n // 2)))]
+    if layout == "merge3-interleaved":
+        return [(t, list(range(r, n, 3))) for r in (1, 0, 2)]
+    if layout == "singletons":  # n one-variable components in a stride-permuted order (7 is coprime with 30, 60, 200)
+        return [(t, [(7 * k + 3) % n]) for k in range(n)]
+    if layout == "mixed":  # three types, each split in two components that JointPrior merges
+        out = []
+        for r, tt in enumerate(("U", "G", "E", "G", "U", "E")):
+            out.append((tt, list(range(r, n, 6))))
+        return out
+    raise HarnessError(layout)
+
+
+def ev_manyvar(case):
+    import inference.priors as P
+    import mpmath as mp
+    from mc.ref import c06_ref as R
+
+    mp.mp.dps = 50
+    t, n, s, layout = case["type"], case["n"], case["scale"], case["layout"]
+    comps = many_components(layout, t, n)
+    laws = {}
+    objs = []
+    for tt, idxs in comps:
+        hs = [many_law(tt, i, s) for i in idxs]
+        for i, h in zip(idxs, hs):
+            laws[i] = (tt, h)
+        with lib(f"{CLASSNAME[tt]}-construct"):
+            objs.append(build_component(P, tt, idxs, hs))
+    if sorted(laws) != list(range(n)):
+        raise HarnessError("layout does not cover the variables")
+    if layout == "single":
+        pr, cname = objs[0], CLASSNAME[t]
+    else:
+        with lib("JointPrior-construct"):
+            pr = P.JointPrior(components=objs, n_variables=n)
+        cname = "JointPrior-of-" + (CLASSNAME[t] + "s" if layout != "mixed" else "mixed-types")
+    key = f"many-variables/{cname}"
+    det = dict(type=t, n=n, scale=s, layout=layout)
+    fails, tags, slack, nev, seen = [], set(), {}, 0, set()
+
+    def add(k, what, **kw):
+        if k not in seen:
+            seen.add(k)
+            fails.append(fail(k, what, **det, **kw))
+
+    last = None
+    for which in range(case["n_theta"]):
+        theta = np.array([many_inside(*laws[i], i, which) for i in range(n)])
+        if any(R.position(*laws[i], float(theta[i])) != "in" for i in range(n)):
+            raise HarnessError("theta not strictly inside the support")
+        terms = [R.logpdf(*laws[i], float(theta[i])) for i in range(n)]
+        ref = sum((a for a, _ in terms), mp.mpf(0))
+        sc = sum((b for _, b in terms), mp.mpf(0))
+        # n terms added in double precision in any order: at most (n - 1) eps sum|terms|, plus the per-term allowance
+        tol = (CTOL + n) * EPS * float(sc)
+        with lib(f"{cname}-call"):
+            v = pr(theta.copy())
+        with lib(f"{cname}-gradient"):
+            g = np.asarray(pr.gradient(theta.copy()))
+        nev += 2
+        if np.ndim(v) != 0:
+            add(f"{key}/value-not-a-scalar", f"shape {np.shape(v)}")
+            continue
+        v = float(v)
+        if not np.isfinite(v):
+            add(f"{key}/log-density-not-finite-inside-the-support", f"value {v!r} for {n} variables of scale {s:g}, every one strictly inside its support; the sum of the {n} one-variable log-densities is {mp.nstr(ref, 17)}", observed=v, expected=mp.nstr(ref, 25), theta=theta.tolist())
+        else:
+            err = float(abs(mp.mpf(v) - ref))
+            slack["many-variables/value"] = max(slack.get("many-variables/value", 0.0), err / tol)
+            if not err <= tol:
+                add(f"{key}/log-density-is-not-the-sum-of-one-variable-log-densities", f"value {v!r} vs {mp.nstr(ref, 17)} = sum of the {n} one-variable log-densities (scale {s:g}; |err| {err:.3g} > {tol:.3g})", observed=v, expected=mp.nstr(ref, 25), theta=theta.tolist())
+        if g.shape != (n,):
+            add(f"{key}/gradient-shape", f"shape {g.shape} for {n} variables")
+        else:
+            for i in range(n):
+                gr, gs = R.dlogpdf(*laws[i], float(theta[i]))
+                gi = float(g[i])
+                tolg = CTOL * EPS * float(gs)
+                e = float(abs(mp.mpf(gi) - gr)) if np.isfinite(gi) else float("inf")
+                ok = e <= tolg
+                slack["many-variables/gradient"] = max(slack.get("many-variables/gradient", 0.0), (0.0 if e == 0 else float("inf")) if tolg == 0 else e / tolg)
+                if not ok:
+                    add(f"{key}/gradient-entry", f"gradient[{i}] = {gi!r} but d log f_{i}/d theta_{i} = {mp.nstr(gr, 17)} (law {laws[i]}, scale {s:g}, {n} variables)", observed_entry=gi, expected_entry=mp.nstr(gr, 25), index=i, theta=theta.tolist())
+                    break
+        last = {"n": n, "scale": s, "layout": layout, "value": v, "reference": mp.nstr(ref, 20)}
+    with lib(f"{cname}-bounds"):
+        b = list(pr.bounds)
+    if len(b) != n:
+        add(f"{key}/bounds-length", f"{len(b)} bounds for {n} variables")
+    else:
+        order = list(range(n)) if layout != "single" else comps[0][1]
+        bad = [k for k, i in enumerate(order) if norm_bound(b[k]) != R.support(*laws[i])]
+        if bad:
+            add(f"{key}/bounds-not-support-of-variable", f"bounds[{bad[0]}] = {b[bad[0]]!r} but variable {order[bad[0]]} has support {R.support(*laws[order[bad[0]]])}")
+    tags.add(f"many-variables {layout} type={t if layout != 'mixed' else 'G+E+U'} n={n} scale={s:g}")
+    return {"fails": fails[:20], "n": nev, "tags": tags, "slack": slack, "sample": last}
+
+
+EVALUATORS = {"reuse": ev_reuse, "guesses_big": ev_guesses_big,"class": ev_class, "quad": ev_quad, "layout": ev_layout, "joint": ev_joint, "posterior": ev_posterior, "guesses": ev_guesses, "manyvar": ev_manyvar}
 
 
 def run(ck):
@@ -1120,6 +1250,15 @@ def run(ck):
     rperms += [p4[(7 * seed) % 24], p4[(7 * seed + 23) % 24]] if quick else p4
     ck.run_cases("reuse", [{"perm": perm, "seed": seed} for perm in rperms], chunk=1)
     nreuse = sum(sum(1 for _ in joint_configs(perm)) for perm in rperms)
+    # ---- many variables at narrow / unit / wide scales (added)
+    mcases = []
+    for n in (30, 60, 200):
+        for sc in (1.0, 1e-6, 1e6):
+            for t in "UGE":
+                for layout in MANY_LAYOUTS[:-1]:
+                    mcases.append({"type": t, "n": n, "scale": sc, "layout": layout, "n_theta": 2 if quick else 4})
+            mcases.append({"type": "U", "n": n, "scale": sc, "layout": "mixed", "n_theta": 2 if quick else 4})
+    ck.run_cases("manyvar", mcases, chunk=1)
     ck.rule = (
         "class: hyper-parameter lattice x theta lattice (interior / support edge / outside incl. one ulp either side) x 5-6 input forms x 5 quantiles; "
         "layout: every ordered selection of k<=4 of 4 indices per class; joint: every permutation of n<=%d variables cut into <=3 consecutive blocks "
@@ -1135,6 +1274,16 @@ def run(ck):
         "cost_gradient, initial guesses) and must give exactly what a freshly built equal object gives; the caller's index lists, hyper-parameter arrays and component lists must be unchanged; "
         "at the end the components and the first joint prior are also compared with the reference.  Distinct = (evaluator, n, k, merged, index order sorted?, theta situation) etc."
     ) % (nmax, nconf, nreuse, "2 seed-rotated permutations" if quick else "every permutation")
+    ck.rule += (
+        "  manyvar (keys many-variables/<Class | JointPrior-of-<Class>s | JointPrior-of-mixed-types>/log-density-not-finite-inside-the-support, ../log-density-is-not-the-sum-of-one-variable-log-densities, "
+        "../gradient-entry, ../gradient-shape, ../bounds-..): n in {30, 60, 200} variables x absolute scale in {1e-6, 1, 1e6} (all hyper-parameters of the prior scaled: Gaussian mean and s.d., exponential "
+        "mean, uniform lower end and width; distinct per variable) x each class as ONE n-variable component, as a JointPrior of 2 (blocks, one index list descending) / 3 (interleaved) / n (one-variable, "
+        "stride-permuted order) components of that class (which JointPrior merges), and a JointPrior of 6 interleaved components of the three types; at 2 (quick) / 4 vectors strictly inside the support the "
+        "value must be finite and equal the 50-digit sum of the n one-variable log-densities within (16 + n) eps sum|terms|, every gradient entry equal to the one-variable derivative within 16 eps |entry|, "
+        "bounds = supports; distinct = (layout, type, n, scale)."
+    )
+    ck.assume("manyvar: the value tolerance (16 + n) eps sum|terms| allows the n terms to be added in double precision in any order; the theta vectors put every variable strictly inside its support "
+              "(Gaussian: up to 30 s.d. from the mean, exponential: up to 30 means, uniform: 1/4, 1/2, 13/16 of the width)")
     ck.assume("hyper-parameters and theta values are the listed finite lattices; joint hyper-parameters are distinct per (type, index) so that misrouting is visible")
     ck.assume("the generator seam replaces inference.priors.rng; a draw is 'distributed according to the density' iff F(draw at quantile u) = u on the alphabet {.01,.1,.5,.9,.99} (numpy's own transformation of uniform bits into variates is trusted)")
     ck.assume("guesses_big: costs of two draws closer than 1e-9 (1 + |cost|) are treated as a tie (either order accepted; the library orders by its double-precision cost)")
